@@ -484,6 +484,48 @@ def pinned_classes():
     return [x.encode() for x in out]
 
 
+# ---- STATE LEFT OVER from the previous word / bracket / call (wave 6): errno that is tested but never cleared, the
+# range table of the previous bracket, a buffer / width taken from the first element.  Every base text is run
+# (a) as the word AFTER each in-text poison inside one hostlist_create, (b) through `sprobe` (harness): in the
+# call AFTER hostlist_create(poison), nothing reset in between, (c) on the pdsh binary (checks: cli / -x / file).
+POISONS = [  # (note, text, usable as a word of a text that must still be accepted)
+    ("erange-suffix", b"job20240929102030123456789", True),       # plain name, digit tail overflows strtoul
+    ("erange-numeric", b"99999999999999999999999", True),         # purely numeric name, the same
+    ("more-ranges", b"b[1,5-7,9,11-12]", True),                   # an earlier bracket with MORE ranges
+    ("long-bracket", b"q[" + b",".join(b"%d" % (3 * i) for i in range(40)) + b"]", True),
+    ("wide-first-suffix", b"w[0000000000000000000000042,1]-x", True),   # wide FIRST element, suffix form
+    ("wide-first", b"w[0000000000000000000000042-0000000000000000000000043]", True),
+    ("failed-toomany", b"z[1-99999]", False),                     # a call that FAILED (the library sets errno itself)
+    ("failed-invalid", b"z[2-1]", False),
+    ("failed-unbalanced", b"z[1", False),
+    ("failed-overflow", b"z[1-99999999999999999999]", False)]
+STATE_GOOD = [b"a[1-3]", b"a[1,5-7]", b"n[08-11]", b"[8-12]", b"a[9-11]b", b"x[1-2]-[0-1]", b"node7", b"node007,n1",
+              b"foo[00-02,1,3,5]-ib",                             # mixed zero-pad widths under a suffix
+              b"n[1,0000000000000000000000005]-ib0",              # a LATER element wider than 20 and than the first
+              b"sw[1-2,0000000000000000000000042]-mgmt", b"n[1,0000000000000000000000005]-[1-2]",
+              b"r[7,010,0011-0012]", b"a4294967297", b"a[1-2],a4294967298"]
+STATE_BAD = [b"a[1,]", b"a[1-3,]", b"a[,1]", b"a[1,,2]", b"a[]", b"a[1-]", b"a[-1]", b"a[1-3", b"a[3-1]",
+             b"a[1-99999]", b"a[1,]x", b"a[1-3,]-ib"]
+
+
+def poisoned_classes():
+    """base texts as the word after each in-text poison (one hostlist_create), and between two poisons"""
+    out = []
+    for _, p, inl in POISONS:
+        if not inl:
+            continue
+        for t in STATE_GOOD + STATE_BAD:
+            out.append(p + b"," + t)
+    for t in STATE_GOOD:
+        out.append(POISONS[2][1] + b"," + t + b"," + POISONS[0][1] + b"," + t)
+    return out
+
+
+def state_pairs():
+    """(note, poison, text) for `sprobe`: text probed in the call after hostlist_create(poison)"""
+    return [(n, p, t) for n, p, _ in POISONS for t in STATE_GOOD + STATE_BAD]
+
+
 def gen_malformed(rng, wf, dist):
     """one byte string for the C15 stream (no NUL); dist counts the shapes"""
     def note(k):
@@ -686,6 +728,13 @@ class HL:
                 out.append(ans[0])
         return out
 
+    def sprobe_all(self, pairs, lim=1000):
+        """pairs of (poison, text) -> (impl answers of `sprobe`, model answers of `probe text`): the model is a
+        function of the text alone, the real call runs in the state hostlist_create(poison) left behind"""
+        m = self.model(["probe %s %d" % (hx(t), lim) for _, t in pairs])
+        out = self.impl(["sprobe %s %s %d" % (hx(p), hx(t), lim) for p, t in pairs])
+        return out, m
+
     def probe_all(self, strings, force_fork=0.02):
         """-> (impl answers, model answers): the model runs first; what it calls ub/diverge, what looks
         risky and a random sample go through `fprobe` (forked child, per-call limits), the rest in process"""
@@ -846,6 +895,12 @@ class Cli:
             return "fatal:toomany"
         if b"no remote hosts specified" in err:
             return "nohosts"
+        k = err.find(b'invalid host expression "')
+        if k >= 0 and rc == 1:
+            # opt.c since d1c94df: a target word whose hostlist_push() yields nothing is an error; the word is quoted
+            w = err[k + len(b'invalid host expression "'):]
+            w = w[:w.rfind(b'"')] if b'"' in w else w
+            return "badword:" + hx(w)
         return "rc%d" % rc
 
     def linebuf(self):
